@@ -138,6 +138,10 @@ def answer(model, siteinfos, host, q, limits):
     if a == "expandtemplates":
         return {"expandtemplates": {"wikitext": model.expand(q["text"])}}
     if a == "parse":
+        page = q.get("page")
+        if page is not None and model.page(page) is None:
+            # as MediaWiki does for a page that does not exist
+            return {"error": {"code": "missingtitle", "info": "The page you specified doesn't exist."}}
         return {"parse": {"text": {"*": "<div>x</div>"}, "title": q.get("page", "")}}
     if a != "query":
         return {"error": {"info": "unhandled action %r" % a}}
